@@ -280,10 +280,13 @@ pub fn execute(set: &dyn DynSet, xi: &[u8; 32], xi_other: &[u8; 32], ops: &[Op],
         }
     };
     let pk0_bytes = pk0.to_bytes();
-    let (opk, osk) = set.keygen_seed(xi_other);
-    let (other_pk_bytes, other_sk_bytes) = (opk.to_bytes(), osk.to_bytes());
-    let mut sks: Vec<SkRep> = vec![SkRep { obj: set.keygen_seed(xi).1, honest: true, prov: "gen".into() }];
-    let mut pks: Vec<PkRep> = vec![PkRep { obj: set.keygen_seed(xi).0, honest: true, derived: false, prov: "gen".into() }];
+    // the "other honest key" only feeds torn writes; should its generation panic, the reference key's bytes serve
+    let (other_pk_bytes, other_sk_bytes) = match catch(|| set.keygen_seed(xi_other)) {
+        Ok((opk, osk)) => (opk.to_bytes(), osk.to_bytes()),
+        Err(_) => (pk0_bytes.clone(), sk0.to_bytes()),
+    };
+    let mut sks: Vec<SkRep> = vec![SkRep { obj: sk0.dup(), honest: true, prov: "gen".into() }];
+    let mut pks: Vec<PkRep> = vec![PkRep { obj: pk0.dup(), honest: true, derived: false, prov: "gen".into() }];
     let mut tuples: Vec<Tuple> = Vec::new();
     let bump = |m: &mut BTreeMap<String, u64>, k: &str| *m.entry(k.to_string()).or_insert(0) += 1;
 
@@ -431,10 +434,10 @@ pub fn execute(set: &dyn DynSet, xi: &[u8; 32], xi_other: &[u8; 32], ops: &[Op],
                 }
                 // a party that lost its keys entirely re-creates them from the seed (same logical key)
                 if sks.is_empty() {
-                    sks.push(SkRep { obj: set.keygen_seed(xi).1, honest: true, prov: "gen".into() });
+                    sks.push(SkRep { obj: sk0.dup(), honest: true, prov: "gen".into() });
                 }
                 if pks.is_empty() {
-                    pks.push(PkRep { obj: set.keygen_seed(xi).0, honest: true, derived: false, prov: "gen".into() });
+                    pks.push(PkRep { obj: pk0.dup(), honest: true, derived: false, prov: "gen".into() });
                 }
             }
             Op::Sign { sk, msg, ctx, mode, rnd, via_os } => {
@@ -847,6 +850,10 @@ pub fn gen_short_history(p: &mut Prng, set: &dyn DynSet) -> Vec<Op> {
         ops.push(Op::SkReload { src: 0, fault: Some(fault) });
         ops.push(Op::SkToBytes { src: 2 });
         ops.push(Op::PkDerive { src: 2 });
+        if p.chance(1, 2) {
+            // the key loaded from the faulted store (if it was accepted) must also be able to sign without panicking
+            ops.push(Op::Sign { sk: 2, msg: p.bytes(5), ctx: vec![], mode: *p.pick(&MODES), rnd: p.array32(), via_os: false });
+        }
     } else {
         ops.push(Op::PkReload { src: 0, fault: Some(gen_fault(p, info.pk_len, None)) });
         ops.push(Op::PkToBytes { src: 4 });
